@@ -297,6 +297,29 @@ def do_op(op, env):
             CultureInfo.current_culture = prev
     if k in ("fmt", "parse"):
         return _do_text(op, env)
+    if k == "fmtw":
+        # ["fmtw", ptype, text, cultureA, cultureB, value]: create for A, re-target to B
+        pat = _pattern_cls(op[1]).create(op[2], _culture(op[3], "cached")).with_culture(_culture(op[4], "cached"))
+        return pat.format(_value(op[1], op[5])), None
+    if k == "fmtcal":
+        # ["fmtcal", text, culture, calendar id, [y, m, d]]: a date pattern re-targeted to another calendar
+        cal = P.CalendarSystem.for_id(op[3])
+        pat = _pattern_cls("localdate").create(op[1], _culture(op[2], "cached")).with_calendar(cal)
+        d = P.LocalDate(op[4][0], op[4][1], op[4][2], cal)
+        s = pat.format(d)
+        r = pat.parse(s)
+        return [s, r.success and _unvalue("localdate", r.value)], None
+    if k == "winmap":
+        from pyoda_time.time_zones._tzdb_date_time_zone_source import TzdbDateTimeZoneSource
+
+        src = TzdbDateTimeZoneSource.default
+        if op[1] == "t2w":
+            return src.tzdb_to_windows_ids.get(op[2]), None
+        if op[1] == "w2t":
+            return src.windows_to_tzdb_ids.get(op[2]), None
+        if op[1] == "aliases":
+            return list(src.aliases.get(op[2], [])), None
+        return src.canonical_id_map.get(op[2]), None
     if k == "iso":
         pat = getattr(_pattern_cls(op[1]), op[2])
         s = pat.format(_value(op[1], op[3]))
@@ -496,6 +519,23 @@ def build_pool(master_seed, scale=1.0):
     for ptype, pats in PATTERNS.items():
         for text in pats[:3]:
             pool["text"].setdefault("", []).append(["fmt", ptype, text, "", "invariant", rand_value(ptype)])
+    # same pattern text re-targeted between cultures, and date patterns re-targeted to other calendars
+    for _ in range(int(60 * scale)):
+        ptype = rng.choice(list(PATTERNS))
+        a, b = rng.sample(CULTURES, 2)
+        pool["text"].setdefault(a, []).append(["fmtw", ptype, rng.choice(PATTERNS[ptype]), a, b, rand_value(ptype)])
+    for _ in range(int(40 * scale)):
+        cal = rng.choice(list(CAL_RANGE))
+        lo, hi = CAL_RANGE[cal]
+        y = rng.randrange(max(lo, 1300), min(hi, 1500) + 1) if cal == "Um Al Qura" else rng.randrange(max(lo, 2), min(hi, 9000))
+        cn = rng.choice(CULTURES)
+        pool["text"].setdefault(cn, []).append(["fmtcal", rng.choice(["uuuu-MM-dd", "d MMMM yyyy", "yyyy MM dd gg"]), cn, cal, [y, rng.randrange(1, 13), rng.randrange(1, 29)]])
+    for zid in TZ_IDS:
+        pool["prov"].append(["winmap", "t2w", zid])
+        pool["prov"].append(["winmap", "canon", rng.choice([zid] + TZ_ALIASES.get(zid, []))])
+        pool["prov"].append(["winmap", "aliases", zid])
+    for w in ("GMT Standard Time", "Eastern Standard Time", "Tokyo Standard Time", "Nepal Standard Time", "No Such Zone"):
+        pool["prov"].append(["winmap", "w2t", w])
     for ptype, names in ISO_SINGLETONS.items():
         for nm in names:
             pool["iso"].append(["iso", ptype, nm, rand_value(ptype)])
@@ -688,7 +728,7 @@ def gen_run(seed):
         warm = rng.sample(["utc", "cal", "zones", "cultures", "iso"], rng.choice([1, 2, 4]))
     # loading the tz database under the tracer costs ~0.4M steps per thread: keep the cold-provider race to a minority of
     # runs, and to few threads
-    uses_tzdb = any(op[0] in ("zi", "zoff", "inzone", "tz", "tznone", "tzids", "prov", "local") for p in progs for op in p)
+    uses_tzdb = any(op[0] in ("zi", "zoff", "inzone", "tz", "tznone", "tzids", "prov", "local", "winmap") for p in progs for op in p)
     if uses_tzdb and (rng.random() < 0.85 or nthreads > 4):
         warm.append("prov")
     spec["prewarm"] = warm
@@ -828,7 +868,7 @@ def execute(spec):
                 out["signature"] = f"exception {op[0]} {ans[1]} at {exc[0] if exc else '?'}"
                 out["detail"] = f"thread {ti} op {oi} {op}: raised {ans[1]} ({exc[1] if exc else ''}); alone in a fresh process the answer is {exp}"  # fmt: skip
             else:
-                out["signature"] = f"answer differs {op[0]}" + (f" {op[1]}" if op[0] in ("fmt", "parse", "iso") else "")
+                out["signature"] = f"answer differs {op[0]}" + (f" {op[1]}" if op[0] in ("fmt", "parse", "iso", "fmtw", "winmap") else "")
                 out["detail"] = f"thread {ti} op {oi} {op}: answered {ans}; alone in a fresh process the answer is {exp}"
             return out
         if op[0] == "zi":
